@@ -447,11 +447,11 @@ def run(ctx):
     # the two ROWS of the table.  Broadcasting the unflattened value against (2, 2) repeats a column vector along the wrong axis.
     ed = m.func("channel_dim._expand_dim", must=False)
     if ed is not None:
-        flat_names = set()
+        flat_names = {}
         for st in walk_no_nested(ed.node):
             if isinstance(st, ast.Assign) and len(st.targets) == 1 and isinstance(st.targets[0], ast.Name) and isinstance(st.value, ast.Call) \
                     and isinstance(st.value.func, ast.Attribute) and (st.value.func.attr in ("ravel", "flatten") or (st.value.func.attr == "reshape" and unparse(st.value.args[0]) in ("-1", "(-1,)"))):
-                flat_names.add(st.targets[0].id)
+                flat_names.setdefault(st.targets[0].id, st.lineno)
         verdict, why, at = None, "vector branch not recognised", None
         for r in walk_no_nested(ed.node):
             if not (isinstance(r, ast.Return) and isinstance(r.value, ast.Call)):
@@ -463,13 +463,13 @@ def run(ctx):
                 if fn in ("vstack", "array", "stack") and c.args and isinstance(c.args[0], (ast.List, ast.Tuple)) and len(c.args[0].elts) == 2 \
                         and all(isinstance(e, ast.Name) for e in c.args[0].elts) and len({e.id for e in c.args[0].elts}) == 1:
                     nm = c.args[0].elts[0].id
-                    if nm in flat_names:
+                    if nm in flat_names and flat_names[nm] < r.lineno:
                         verdict, why, at = (True if verdict is None else verdict), f"rows ({nm}, {nm}) with {nm} flattened", r
                     else:
                         verdict, why, at = False, f"`{unparse(r)[:60]}` repeats `{nm}` without flattening it first", r
                 if fn in ("broadcast_to", "tile", "repeat", "broadcast_arrays") and c.args:
                     src = {y.id for y in ast.walk(c.args[0]) if isinstance(y, ast.Name)}
-                    if not (src & flat_names):
+                    if not any(x_ in flat_names and flat_names[x_] < r.lineno for x_ in src):
                         verdict, at = False, r
                         why = (f"`{unparse(c)[:60]}` (line {c.lineno}) broadcasts the dims as given: a column [[m], [n]] is repeated along the columns, [[m, m], [n, n]], instead of being "
                                "read as the vector (m, n) -> [[m, n], [m, n]]; with m != n the table no longer matches the Choi matrix")
